@@ -76,6 +76,21 @@ theorem parallelResp_eq_spec (bank : List (List K Ã— List K)) (w : K) (hw : w â‰
     parallelResp bank w = parallelSpec bank w := by
   simp only [parallelResp, parallelSpec, reduceResp_add, respOfFilter_eq_spec _ _ _ hw]
 
+mutual
+theorem Bank.resp_eq_spec (w : K) (hw : w â‰  0) : âˆ€ t : Bank K, Bank.resp w t = Bank.spec w t
+  | .filt b a => by simp only [Bank.resp, Bank.spec, respOfFilter_eq_spec b a w hw]
+  | .cascade ms => by
+    simp only [Bank.resp, Bank.spec, reduceResp_mul, Bank.respList_eq_specList w hw ms]
+  | .parallel ms => by
+    simp only [Bank.resp, Bank.spec, reduceResp_add, Bank.respList_eq_specList w hw ms]
+theorem Bank.respList_eq_specList (w : K) (hw : w â‰  0) :
+    âˆ€ ms : List (Bank K), Bank.respList w ms = Bank.specList w ms
+  | [] => by simp only [Bank.respList, Bank.specList]
+  | m :: ms => by
+    simp only [Bank.respList, Bank.specList, Bank.resp_eq_spec w hw m,
+      Bank.respList_eq_specList w hw ms]
+end
+
 /-! #### evaluation is a ring homomorphism on coefficient lists -/
 
 theorem evalFrom_scaleL (w : K) (i : Nat) (c : K) (q : List K) :
